@@ -87,6 +87,7 @@ type FuncContract struct {
 	Hints        []*Clause       // ground lemma instances / extra facts to be proved then assumed at entry? (proved as obligations first)
 	Outs         []string        // destination parameters (class D: defined before read, fully written)
 	Reads        []Expr          // restricts which fields of an operand are read (class D)
+	OutFields    []Expr          // single fields that are written on every return (class D)
 	OutsWhen     *Clause         // condition (over the post state) under which the destinations are fully written
 	Operands     []string
 	Defines      []Expr // leaves always defined by the function
@@ -598,7 +599,14 @@ func ParseSpecFile(path string) (*Spec, error) {
 					w := rest[i+6:]
 					cur.OutsWhen = &Clause{Kind: "outs-when", E: mustExpr(w, l.no), Src: w}
 				}
-				cur.Outs = strings.FieldsFunc(names, func(r rune) bool { return r == ',' || r == ' ' })
+				for _, n := range strings.FieldsFunc(names, func(r rune) bool { return r == ',' || r == ' ' }) {
+					if strings.Contains(n, ".") {
+						// a single field: written on every return (on which COND holds); says nothing about reads
+						cur.OutFields = append(cur.OutFields, mustExpr(n, l.no))
+					} else {
+						cur.Outs = append(cur.Outs, n)
+					}
+				}
 			case "operands":
 				cur.Operands = strings.FieldsFunc(rest, func(r rune) bool { return r == ',' || r == ' ' })
 			case "local":
